@@ -1,7 +1,8 @@
 (** Prop_C13.v -- C13: idle channels are swept completely and the store
     returns to empty. *)
 From MW Require Import Base Store Monad Usage Server Websocket Service Inv Obs
-     StepFacts SweepFacts TimeInv Corollaries QuiesceFacts Inst_Params.
+     StepFacts SweepFacts TimeInv Corollaries QuiesceFacts Inst_Params Inst_Timer.
+From MWGen Require GenParams.
 Local Open Scope list_scope.
 
 (** after a non-faulty sweep no mailbox with no subscriber and no activity
@@ -58,7 +59,11 @@ Theorem C13_store_returns_to_empty :
 Proof. exact reachable_store_returns_to_empty. Qed.
 Print Assumptions C13_store_returns_to_empty.
 
-(** the repository's constants satisfy the hypotheses *)
+(** the repository's constants satisfy the hypotheses, and the period is shorter
+    than the expiration time *)
+Example C13_constants_ok : GenParams.gen_period < GenParams.gen_exp.
+Proof. exact gen_period_lt_exp. Qed.
+
 Example C13_nonvacuous :
   0 < exp (gen_cfg true true None) /\ 0 < period (gen_cfg true true None) /\
   reachable (gen_cfg true true None) (init (gen_cfg true true None) 0).
